@@ -18,6 +18,7 @@ import (
 	"runtime"
 	"sync/atomic"
 	"testing"
+	"time"
 
 	"verif/mc/chain"
 	"verif/mc/ev"
@@ -299,17 +300,22 @@ func TestCheck(t *testing.T) {
 		"record level stores shapes that need not be valid blocks (hash validity is irrelevant to storage fidelity); validity is covered by the reader level",
 		"tolerated: InvokeTransaction.ProofFacts nil≡empty (omitempty, hash uses len>0); nil-vs-empty of a block's own top-level tx/receipt list",
 	)
-	h.selfTest()
-	h.codecPhase()
-	h.recordPhase()
-	h.miscPhase()
+	phase := func(name string, f func()) {
+		t0 := time.Now()
+		f()
+		fmt.Printf("phase %-10s %6.1fs\n", name, time.Since(t0).Seconds())
+	}
+	phase("selftest", h.selfTest)
+	phase("codec", h.codecPhase)
+	phase("record", h.recordPhase)
+	phase("misc", h.miscPhase)
 	versions := []string{"0.13.2", "0.13.4", "0.14.0", "0.14.1"}
-	h.storePhase(versions, ev.Pick(r, 1, 12))
+	phase("reader", func() { h.storePhase(versions, ev.Pick(r, 1, 12)) })
 	var pats []int
 	for p := 0; p < 2187; p++ {
 		pats = append(pats, p)
 	}
-	h.suPatternPhase(pats)
+	phase("su-pattern", func() { h.suPatternPhase(pats) })
 
 	r.Set("rule", "cases = block/record shapes enumerated by index over stated products (see cases_* counters); an evaluation writes one case through "+
 		"the real writers and reads it through every accessor on each backend; non-trivial = distinct (family, block size) outcomes, all of which must be 'ok'")
